@@ -1527,4 +1527,240 @@ theorem tuplesStr_inj : ∀ (ts ts' : List (Str × Str)), (∀ t ∈ ts, TupOK t
     have ih := tuplesStr_inj r r' (fun q hq => h q (by simp [hq])) (fun q hq => h' q (by simp [hq])) e
     rw [ih, Prod.ext e1 e2]
 
+/-! ### attribute blocks -/
+
+/-- the characters of a property `key=value` -/
+def propChar (c : Char) : Bool := isLow c || c == '=' || isAsciiDigit c
+
+theorem mem_renderProp (kv : Key × Str) (hd : ∀ c ∈ kv.2, isAsciiDigit c = true) :
+    ∀ c ∈ renderProp kv, propChar c = true := by
+  intro c hc
+  unfold renderProp at hc
+  simp only [List.mem_append, List.mem_singleton, List.mem_cons, List.not_mem_nil, or_false] at hc
+  rcases hc with (hc | rfl) | hc
+  · have : isLow c = true := by
+      cases hk : kv.1 with
+      | mass => rw [hk] at hc; simp [Key.text] at hc; rcases hc with rfl | rfl | rfl <;> decide
+      | rad => rw [hk] at hc; simp [Key.text] at hc; rcases hc with rfl | rfl | rfl <;> decide
+    simp [propChar, this]
+  · decide
+  · simp [propChar, hd c hc]
+
+theorem renderProp_ne_nil (kv : Key × Str) : renderProp kv ≠ [] := by
+  unfold renderProp; simp
+
+theorem renderProp_inj : Function.Injective renderProp := by
+  rintro ⟨k, ds⟩ ⟨k', ds'⟩ e
+  cases k <;> cases k' <;> simp [renderProp, Key.text] at e
+  · rw [e]
+  · rw [e]
+
+theorem propChar_ne {c d : Char} (h : propChar c = true) (hd : propChar d = false) : c ≠ d := by
+  rintro rfl; rw [h] at hd; cases hd
+
+/-- `",x₁,x₂…"` determines the `xᵢ` when they contain no comma -/
+theorem commaList_inj : ∀ (l l' : List Str), (∀ x ∈ l, ∀ c ∈ x, propChar c = true) →
+    (∀ x ∈ l', ∀ c ∈ x, propChar c = true) →
+    (l.map (fun y => py!"," ++ y)).flatten = (l'.map (fun y => py!"," ++ y)).flatten → l = l'
+  | [], [], _, _, _ => rfl
+  | [], x :: r, _, _, e => by simp at e
+  | x :: r, [], _, _, e => by simp at e
+  | x :: r, x' :: r', h, h', e => by
+    simp only [List.map_cons, List.flatten_cons, List.cons_append, List.nil_append, List.cons.injEq,
+      true_and] at e
+    have hh : ∀ (l : List Str) c, ((l.map (fun y => py!"," ++ y)).flatten).head? = some c → propChar c = false := by
+      intro l c hc
+      cases l with
+      | nil => simp at hc
+      | cons y l => simp at hc; subst hc; decide
+    obtain ⟨e1, e2⟩ := span_unique propChar x x' _ _ (h x (by simp)) (h' x' (by simp)) (hh r) (hh r') e
+    rw [e1, commaList_inj r r' (fun y hy => h y (by simp [hy])) (fun y hy => h' y (by simp [hy])) e2]
+
+theorem join_comma_inj (l l' : List Str) (h : ∀ x ∈ l, x ≠ [] ∧ ∀ c ∈ x, propChar c = true)
+    (h' : ∀ x ∈ l', x ≠ [] ∧ ∀ c ∈ x, propChar c = true) (e : join py!"," l = join py!"," l') : l = l' := by
+  unfold join at e
+  have hh : ∀ (l : List Str) c, ((l.map (fun y => py!"," ++ y)).flatten).head? = some c → propChar c = false := by
+    intro l c hc
+    cases l with
+    | nil => simp at hc
+    | cons y l => simp at hc; subst hc; decide
+  cases l with
+  | nil =>
+    cases l' with
+    | nil => rfl
+    | cons x' r' =>
+      rw [intercalate_cons] at e
+      have e0 : (py!",").intercalate ([] : List Str) = [] := rfl
+      rw [e0] at e
+      have : x' = [] := (List.append_eq_nil_iff.1 e.symm).1
+      exact absurd this (h' x' (by simp)).1
+  | cons x r =>
+    cases l' with
+    | nil =>
+      rw [intercalate_cons] at e
+      have e0 : (py!",").intercalate ([] : List Str) = [] := rfl
+      rw [e0] at e
+      have : x = [] := (List.append_eq_nil_iff.1 e).1
+      exact absurd this (h x (by simp)).1
+    | cons x' r' =>
+      rw [intercalate_cons, intercalate_cons] at e
+      obtain ⟨e1, e2⟩ := span_unique propChar x x' _ _ (h x (by simp)).2 (h' x' (by simp)).2 (hh r) (hh r') e
+      rw [e1, commaList_inj r r' (fun y hy => (h y (by simp [hy])).2) (fun y hy => (h' y (by simp [hy])).2) e2]
+
+/-- characters of `key=value(,key=value)*` -/
+def propsChar (c : Char) : Bool := propChar c || c == ','
+
+theorem mem_join_comma (l : List Str) (h : ∀ x ∈ l, ∀ c ∈ x, propChar c = true) :
+    ∀ c ∈ join py!"," l, propsChar c = true := by
+  intro c hc
+  unfold join at hc
+  cases l with
+  | nil => simp [List.intercalate] at hc
+  | cons x r =>
+    rw [intercalate_cons] at hc
+    simp only [List.mem_append, List.mem_flatten, List.mem_map, exists_exists_and_eq_and, List.mem_cons,
+      List.not_mem_nil, or_false] at hc
+    rcases hc with hc | ⟨y, hy, rfl | hc⟩
+    · simp [propsChar, h x (by simp) c hc]
+    · decide
+    · simp [propsChar, h y (by simp [hy]) c hc]
+
+structure BlockOK (b : Str × List (Key × Str)) : Prop where
+  idx : ∀ c ∈ b.1, isAsciiDigit c = true
+  vals : ∀ kv ∈ b.2, ∀ c ∈ kv.2, isAsciiDigit c = true
+
+def blocksStr (bs : List (Str × List (Key × Str))) : Str := (bs.map renderAttr).flatten
+
+theorem blocksStr_cons (b : Str × List (Key × Str)) (bs : List (Str × List (Key × Str))) :
+    blocksStr (b :: bs) = '(' :: (b.1 ++ ':' :: (join py!"," (b.2.map renderProp) ++ ')' :: blocksStr bs)) := by
+  simp [blocksStr, renderAttr, List.append_assoc]
+
+theorem blocksStr_inj : ∀ (bs bs' : List (Str × List (Key × Str))), (∀ b ∈ bs, BlockOK b) →
+    (∀ b ∈ bs', BlockOK b) → blocksStr bs = blocksStr bs' → bs = bs'
+  | [], [], _, _, _ => rfl
+  | [], b :: r, _, _, e => by rw [blocksStr_cons] at e; simp [blocksStr] at e
+  | b :: r, [], _, _, e => by rw [blocksStr_cons] at e; simp [blocksStr] at e
+  | b :: r, b' :: r', h, h', e => by
+    rw [blocksStr_cons, blocksStr_cons] at e
+    obtain ⟨_, e⟩ := List.cons.inj e
+    have ok := h b (by simp)
+    have ok' := h' b' (by simp)
+    have nd : ∀ (P : Char → Bool) (x : Char) (R : Str), P x = false → ∀ c, (x :: R).head? = some c → P c = false := by
+      intro P x R hx c hc; simp at hc; subst hc; exact hx
+    obtain ⟨e1, e⟩ := span_unique isAsciiDigit _ _ _ _ ok.idx ok'.idx (nd _ _ _ (by decide)) (nd _ _ _ (by decide)) e
+    obtain ⟨_, e⟩ := List.cons.inj e
+    have hp : ∀ (b : Str × List (Key × Str)), BlockOK b → ∀ x ∈ b.2.map renderProp, x ≠ [] ∧ ∀ c ∈ x, propChar c = true := by
+      intro b ok x hx
+      obtain ⟨kv, hkv, rfl⟩ := List.mem_map.1 hx
+      exact ⟨renderProp_ne_nil kv, mem_renderProp kv (ok.vals kv hkv)⟩
+    obtain ⟨e2, e⟩ := span_unique propsChar _ _ _ _
+      (mem_join_comma _ (fun x hx => (hp b ok x hx).2)) (mem_join_comma _ (fun x hx => (hp b' ok' x hx).2))
+      (nd _ _ _ (by decide)) (nd _ _ _ (by decide)) e
+    obtain ⟨_, e⟩ := List.cons.inj e
+    have e3 := join_comma_inj _ _ (hp b ok) (hp b' ok') e2
+    have e4 : b.2 = b'.2 := List.map_injective_iff.2 renderProp_inj e3
+    have ih := blocksStr_inj r r' (fun q hq => h q (by simp [hq])) (fun q hq => h' q (by simp [hq])) e
+    rw [ih, Prod.ext e1 e4]
+
+/-! ### the whole string -/
+
+theorem render_eq (a : Ast) : render a = formulaStr a.formula ++ '/' :: (tuplesStr a.tuples ++
+    (match a.attrs with | none => [] | some bs => '/' :: blocksStr bs)) := by
+  unfold render formulaStr tuplesStr blocksStr
+  cases a.attrs <;> simp [List.append_assoc]
+
+def notSlash (c : Char) : Bool := c != '/'
+
+theorem notSlash_formulaStr (f : List (Str × Option Str)) (hf : ∀ p ∈ f, ElemOK p) :
+    ∀ c ∈ formulaStr f, notSlash c = true := by
+  intro c hc
+  simp only [formulaStr, List.mem_flatten, List.mem_map, exists_exists_and_eq_and] at hc
+  obtain ⟨p, hp, hc⟩ := hc
+  have ok := hf p hp
+  obtain ⟨u, lows, e, hu, hl⟩ := sym_shape ok.sym
+  simp only [renderSym, e, List.mem_append, List.mem_cons] at hc
+  have key : isUp c = true ∨ isLow c = true ∨ isAsciiDigit c = true := by
+    rcases hc with (rfl | hc) | hc
+    · exact Or.inl hu
+    · exact Or.inr (Or.inl (hl c hc))
+    · exact Or.inr (Or.inr (digits_getD p ok c hc))
+  unfold notSlash
+  rcases key with h | h | h
+  · have : c ≠ '/' := by rintro rfl; revert h; decide
+    simpa using this
+  · have : c ≠ '/' := by rintro rfl; revert h; decide
+    simpa using this
+  · have : c ≠ '/' := by rintro rfl; revert h; decide
+    simpa using this
+
+theorem notSlash_tuplesStr (ts : List (Str × Str)) (h : ∀ t ∈ ts, TupOK t) :
+    ∀ c ∈ tuplesStr ts, notSlash c = true := by
+  intro c hc
+  simp only [tuplesStr, List.mem_flatten, List.mem_map, exists_exists_and_eq_and] at hc
+  obtain ⟨t, ht, hc⟩ := hc
+  have ok := h t ht
+  simp only [renderTuple, List.mem_append, List.mem_cons, List.not_mem_nil, or_false] at hc
+  unfold notSlash
+  have dd : ∀ c, isAsciiDigit c = true → (c != '/') = true := by
+    intro c h
+    have : c ≠ '/' := by rintro rfl; revert h; decide
+    simpa using this
+  rcases hc with (((rfl | hc) | rfl) | hc) | rfl
+  · decide
+  · exact dd c (ok.1 c hc)
+  · decide
+  · exact dd c (ok.2 c hc)
+  · decide
+
+theorem wf_elemOK {a : Ast} (h : a.Wf) : ∀ p ∈ a.formula, ElemOK p := fun p hp =>
+  ⟨keys_eq_table ▸ h.syms p hp, fun ds hds => numWf_digits (h.counts p hp ds hds).1⟩
+
+theorem wf_tupOK {a : Ast} (h : a.Wf) : ∀ t ∈ a.tuples, TupOK t := fun t ht =>
+  ⟨(numWf_digits (h.tuples t ht).1).2, (numWf_digits (h.tuples t ht).2).2⟩
+
+theorem wf_blockOK {a : Ast} (h : a.Wf) {bs : List (Str × List (Key × Str))} (hbs : a.attrs = some bs) :
+    ∀ b ∈ bs, BlockOK b := fun b hb =>
+  ⟨(numWf_digits (h.attrs bs hbs b hb).1).2, fun kv hkv => (numWf_digits ((h.attrs bs hbs b hb).2 kv hkv)).2⟩
+
+/-- **`render` is injective on well-formed syntax trees**: a string has at most one reading -/
+theorem render_inj {a b : Ast} (ha : a.Wf) (hb : b.Wf) (e : render a = render b) : a = b := by
+  rw [render_eq, render_eq] at e
+  have hs : ∀ (R : Str) c, ('/' :: R).head? = some c → notSlash c = false := by
+    intro R c hc; simp at hc; subst hc; decide
+  have hn : ∀ c, ([] : Str).head? = some c → notSlash c = false := by intro c hc; simp at hc
+  obtain ⟨e1, e2⟩ := span_unique notSlash _ _ _ _ (notSlash_formulaStr _ (wf_elemOK ha))
+    (notSlash_formulaStr _ (wf_elemOK hb)) (hs _) (hs _) e
+  have e3 := (List.cons.inj e2).2
+  have f1 : a.formula = b.formula := formulaStr_inj _ _ (wf_elemOK ha) (wf_elemOK hb) e1
+  have nt := notSlash_tuplesStr _ (wf_tupOK ha)
+  have nt' := notSlash_tuplesStr _ (wf_tupOK hb)
+  have key : a.tuples = b.tuples ∧ a.attrs = b.attrs := by
+    cases haa : a.attrs with
+    | none =>
+      cases hab : b.attrs with
+      | none =>
+        rw [haa, hab] at e3
+        simp only [List.append_nil] at e3
+        exact ⟨tuplesStr_inj _ _ (wf_tupOK ha) (wf_tupOK hb) e3, rfl⟩
+      | some bs' =>
+        rw [haa, hab] at e3
+        obtain ⟨_, e4⟩ := span_unique notSlash _ _ _ _ nt nt' hn (hs _) e3
+        cases e4
+    | some bs =>
+      cases hab : b.attrs with
+      | none =>
+        rw [haa, hab] at e3
+        obtain ⟨_, e4⟩ := span_unique notSlash _ _ _ _ nt nt' (hs _) hn e3
+        cases e4
+      | some bs' =>
+        rw [haa, hab] at e3
+        obtain ⟨e4, e5⟩ := span_unique notSlash _ _ _ _ nt nt' (hs _) (hs _) e3
+        have e6 := (List.cons.inj e5).2
+        rw [blocksStr_inj _ _ (wf_blockOK ha haa) (wf_blockOK hb hab) e6]
+        exact ⟨tuplesStr_inj _ _ (wf_tupOK ha) (wf_tupOK hb) e4, rfl⟩
+  obtain ⟨fa, ta, aa⟩ := a
+  obtain ⟨fb, tb, ab⟩ := b
+  simp only at f1 key
+  rw [f1, key.1, key.2]
+
 end Contracts.RoundTrip
